@@ -344,6 +344,12 @@ class _DeviceManagementConnection(ABC):
                         )
                         pending = asyncio.get_running_loop().create_future()
                         self._pending = pending
+                        if self.communication_channel is None:
+                            # closed before this task got to run again: `_stop()`
+                            # found only the already answered future to cancel
+                            raise CommunicationError(
+                                "Device management connection was closed."
+                            )
             except TimeoutError:
                 raise CommunicationError(
                     f"No answer to {cemi.code} within "
